@@ -30,8 +30,12 @@ def functions_of_chunks(gen_lines, meta):
             if desc['kind'] in ('struct', 'enum', 'type'):
                 continue
             cont = desc.get('container_short') or ''
+            q = "%s::%s" % (unit, desc['sel'].replace('impl ', '').replace('trait ', '').replace('fn ', ''))
+            base_name = desc['name'][:-7] if desc['name'].endswith('__eager') else desc['name']
+            if not q.endswith(base_name):
+                q += "[%s]" % desc['name']      # a fragment of the function (R11)
             fns.append({"unit": unit, "name": desc['name'], "mode": "exec", "first": first, "last": last,
-                        "item": desc, "qual": "%s::%s" % (unit, desc['sel'].replace('impl ', '').replace('trait ', '').replace('fn ', ''))})
+                        "item": desc, "qual": q})
         else:
             fns += scan_verbatim(gen_lines, first, last, unit)
     return fns
